@@ -145,6 +145,8 @@ MC_SESSION = [lambda ctx: mc_session("session", 2, 2 if ctx.thorough else 1, 2 i
 def run_c01(ctx, C):
     for m in MC_SESSION:
         C.stage_mc(ctx, m(ctx))
+    # the round trip also holds when several SAs protect and unprotect at the same time
+    C.stage_race(ctx, dict(module="Gen_Schedules", name="sksets", prop="C01", constants=dict(Focus='{"protect_unprotect", "reject_then_accept"}')))
     codec_common(ctx, C, [GEN_SK, gen_hist("C01"), gen_hist("C01", long=True), gen_session("C01")], [], mcs=[MC_SK, mc_sk_knob("PeerKeys")], traces=("Trace_SK",))
 
 
@@ -202,7 +204,7 @@ def run_c09(ctx, C):
     C.stage_race(ctx, dict(module="Gen_Schedules", name="dhsets", prop="C09", constants=dict(Focus='{"dh", "new_ike_sa", "rand", "rand_stress"}')))
 
 
-GEN_CIPHER = dict(module="Gen_Cipher", name="cipher")
+GEN_CIPHER = dict(module="Gen_Cipher", name="cipher", constants=dict(PropId='"C10"'))
 MC_CIPHER = dict(module="CipherObj", name="cipherobj", constants=dict(PerCallIV=True, MaxCalls=lambda ctx: 5 if ctx.thorough else 4, FailPoints="{0, 1, 2, 3}"),
                  invariants=("FreshIV", "SizeLaw", "KeySizeExact", "NoResultOnFailure"), view="View",
                  what="cipher objects, IV set and failing random source: all call sequences")
@@ -273,10 +275,11 @@ def run_c18(ctx, C):
 
 def run_c06(ctx, C):
     codec_common(ctx, C, [GEN_SK, gen_hist("C06")], [], mcs=[MC_SK], traces=("Trace_SK",))
+    C.stage_race(ctx, dict(module="Gen_Schedules", name="sksets", prop="C06", constants=dict(Focus='{"protect_unprotect", "cipher"}')))
 
 
 def run_c04(ctx, C):
-    codec_common(ctx, C, [GEN_CURSOR, GEN_SK, GEN_CIPHER], [DRV_BYTES], traces=("Trace_Codec",))
+    codec_common(ctx, C, [GEN_CURSOR, GEN_SK, dict(GEN_CIPHER, constants=dict(PropId='"C04"')), GEN_EAP_UNKNOWN], [DRV_BYTES], traces=("Trace_Codec",))
     C.stage_apalache(ctx)
 
 
